@@ -322,6 +322,7 @@ impl Join {
                     columns,
                     string_pool.long_string_refs(),
                 );
+                check_join_condition(&table, &condition)?;
                 let mut rows = Vec::<Vec<ValueRef>>::new();
                 for value_refs1 in rows1.iter() {
                     for value_refs2 in rows2.iter() {
@@ -362,6 +363,7 @@ impl Join {
                     columns,
                     string_pool.long_string_refs(),
                 );
+                check_join_condition(&table, &condition)?;
                 let mut rows = Vec::<Vec<ValueRef>>::new();
                 for value_refs1 in rows1.iter() {
                     let mut found_any = false;
@@ -399,6 +401,19 @@ impl Join {
             }
         }
     }
+}
+
+/// Checks that a join condition only refers to columns of the joined table.
+fn check_join_condition(table: &Table, condition: &Expr) -> io::Result<()> {
+    for column_name in condition.column_names().into_iter() {
+        if !table.has_column(column_name) {
+            invalid_input!(
+                "Joined table has no column named {:?}",
+                column_name
+            );
+        }
+    }
+    Ok(())
 }
 
 impl fmt::Display for Join {
